@@ -133,6 +133,16 @@ func c07(r *mon.R) {
 				}
 			}
 		}
+		// a few large thresholds in every tier (products of t index differences exceed 64 bits from t = 21, or t = 17 on high indices)
+		if !x.light {
+			for _, nt := range [][2]int{{24, 17}, {24, 21}, {24, 24}, {30, 23}, {40, 33}} {
+				if nt[0] > mx {
+					for i := 0; i < 2; i++ {
+						jobs = append(jobs, job{x.g, x.light, "smp", nt[0], nt[1], i})
+					}
+				}
+			}
+		}
 		for i := 0; i < nAr; i++ {
 			jobs = append(jobs, job{x.g, x.light, "arith", 0, 0, i})
 		}
